@@ -310,6 +310,7 @@ def make_machine_base():
 
         def teardown(self):
             if self.driver is not None:
+                self.driver.log = self.log
                 try:
                     self.driver.finish()
                 except _KnownSkip:
@@ -326,4 +327,5 @@ def replay_log(driver_cls, log, ctx):
     d = driver_cls(ctx, *log[0][1:])
     for op in log[1:]:
         getattr(d, 'op_' + op[0])(*op[1:])
+    d.log = log
     d.finish()
